@@ -119,6 +119,7 @@ class Exec:
         self.notes = []
         self.call_depth = 0
         self.frame_roots = {}         # oid -> description, objects the function must not modify
+        self.bound_stack = []         # quantifier-bound variables in scope (innermost last)
         self.cur_node_stack = []      # FunctionDef being interpreted (innermost last)
         self.cur_qual_stack = []
         from . import npmodel
@@ -134,11 +135,14 @@ class Exec:
         if goal is True and expect == 'unsat':
             # trivially true: still counted, discharged syntactically
             pass
-        o = Obligation(oid, list(st.pc), Z(goal), {'func': self.cur.qualname if self.cur else '?', 'kind': kind,
-                                                   'line': getattr(node, 'lineno', None),
-                                                   'text': text or (ast.unparse(node)[:160] if node is not None else '')})
-        o.expect = expect
-        self.obls.append(o)
+        meta = {'func': self.cur.qualname if self.cur else '?', 'kind': kind, 'line': getattr(node, 'lineno', None),
+                'text': text or (ast.unparse(node)[:160] if node is not None else '')}
+        parts = split_goal(Z(goal)) if expect == 'unsat' else [('', Z(goal))]
+        o = None
+        for suffix, g in parts:
+            o = Obligation(oid + suffix, list(st.pc), g, dict(meta))
+            o.expect = expect
+            self.obls.append(o)
         return o
 
     def use(self, name):
@@ -197,7 +201,9 @@ class Exec:
                 return r[1] if r[0] == 'const' else r
         if nm in ('True', 'False', 'None'):
             return {'True': True, 'False': False, 'None': None}[nm]
-        return ('builtin', nm)
+        if nm in self.np.builtins or nm in self.np.special_forms or nm in EXC_NAMES or nm in ('object', 'bool', 'int', 'float', 'str', 'tuple', 'list', 'set', 'dict', 'super'):
+            return ('builtin', nm)
+        raise Unsupported('unbound name %s' % nm)
 
     def e_Tuple(self, e, st):
         return tuple(self.ev(x, st) for x in e.elts)
@@ -612,10 +618,12 @@ class Exec:
         """common part of comprehensions: returns (vars, guard, element value, local state)"""
         loc = st.fork()
         allvars, guards = [], []
+        depth0 = len(self.bound_stack)
         for g in e.generators:
             itv = self.ev(g.iter, loc)
             vs, guard, el = self.iter_domain(itv, loc)
             allvars += vs
+            self.bound_stack.extend(vs)
             guards.append(guard)
             loc.assume(guard)
             self.bind_target(g.target, el, loc)
@@ -623,8 +631,18 @@ class Exec:
                 t = self.truth(self.ev(c, loc), loc)
                 guards.append(t)
                 loc.assume(t)
-        val = self.ev(elt, loc) if elt is not None else None
+        try:
+            val = self.ev(elt, loc) if elt is not None else None
+        finally:
+            del self.bound_stack[depth0:]
         st.side += loc.side
+        st.ghost = loc.ghost
+        # axioms introduced inside (count facts ...) are closed formulas: keep them
+        from .npmodel2 import free_consts
+        bound_ids = {v.get_id() for v in allvars}
+        for f in loc.pc[len(st.pc):]:
+            if not any(c.get_id() in bound_ids for c in free_consts(f)):
+                st.pc.append(f)
         return allvars, AND(*guards), val, loc
 
     def e_GeneratorExp(self, e, st):
@@ -1256,6 +1274,34 @@ class Exec:
     def s_For(self, t, st):
         from .loops import exec_for
         return exec_for(self, t, st)
+
+
+def split_goal(g, depth=0):
+    """split a goal into independently discharged parts: conjunctions, and  forall x. (a <=> b)  into both directions"""
+    if depth > 3:
+        return [('', g)]
+    if z3.is_and(g):
+        out = []
+        for k, c in enumerate(g.children()):
+            for sfx, p in split_goal(c, depth + 1):
+                out.append(('.%d%s' % (k, sfx), p))
+        return out if len(out) > 1 else [('', g)]
+    if z3.is_quantifier(g) and g.is_forall():
+        body = g.body()
+        if z3.is_eq(body) and z3.is_bool(body.arg(0)):
+            n = g.num_vars()
+            vs = [z3.Const(fresh_name(g.var_name(i)), g.var_sort(i)) for i in range(n)]
+            inst = z3.substitute_vars(body, *reversed(vs))
+            a, b = inst.arg(0), inst.arg(1)
+            return [(':fwd', z3.ForAll(vs, z3.Implies(a, b))), (':bwd', z3.ForAll(vs, z3.Implies(b, a)))]
+    if z3.is_eq(g) and z3.is_bool(g.arg(0)) and not z3.is_true(g.arg(0)) and not z3.is_false(g.arg(0)) and not z3.is_true(g.arg(1)) and not z3.is_false(g.arg(1)):
+        if z3.is_quantifier(g.arg(0)) or z3.is_quantifier(g.arg(1)) or depth == 0:
+            return [(':fwd', z3.Implies(g.arg(0), g.arg(1))), (':bwd', z3.Implies(g.arg(1), g.arg(0)))]
+    return [('', g)]
+
+
+def guards_z(gs):
+    return [g for g in gs if is_z3(g)]
 
 
 def fresh_like(val, name, st):
